@@ -36,6 +36,15 @@ Section Fetch.
     | None => search_fetch cands size mtime nsec want len
     end.
 
+  (* check.c:367-375, first strategy of repair: the fetch is tried only for a block that carries the hash of ITS data (BLK, REP);
+     the hash field of a CHG block is the hash of what the parity position held before (a past hash): such a block goes through
+     the parity recovery, never through import/search *)
+  Definition repair_fetch (st : bstate) (cands : list candidate) (size : N) (mtime nsec : Z) (want : hval) (len : N) : option bid :=
+    match st with
+    | SChg => None
+    | _ => fetch cands size mtime nsec want len
+    end.
+
   Lemma hval_eqb_eq a b : hval_eqb a b = true -> a = b.
   Proof. destruct a, b; simpl; try discriminate; auto. intro H. apply N.eqb_eq in H. congruence. Qed.
 
@@ -52,5 +61,10 @@ Section Fetch.
     - destruct (find _ cands) as [c2|] eqn:E2; [|discriminate]. intro H; inversion H; subst.
       apply find_some in E2. destruct E2 as [_ E2]. destruct (ca_index c2); [discriminate|].
       apply andb_true_iff in E2. destruct E2 as [_ E2]. apply hval_eqb_eq. exact E2.
+  Qed.
+  Theorem repair_fetch_verified st cands size mtime nsec want len x :
+    repair_fetch st cands size mtime nsec want len = Some x -> st <> SChg /\ hashf x len = want.
+  Proof.
+    unfold repair_fetch. destruct st; intro H; try discriminate; (split; [discriminate | eapply fetch_verified; eauto]).
   Qed.
 End Fetch.
